@@ -249,6 +249,7 @@ def correspond(ctx):
             lines.append(f"all\t{mo}\t" + "|".join(enc_event(e) for e in evs))
             meta.append(("all", mo, evs))
     outs = common.run_driver("C13", lines)
+    broken_seen = []
     for (kind, k, data), out in zip(meta, outs):
         if kind == "ev":
             nd = real_event_nd(data)
@@ -283,6 +284,12 @@ def correspond(ctx):
             if not ok:
                 ctx.brk("correspondence-broken", f"correlations/cumulants max_order {k}: code {c},{kap} vs model {out}",
                         case=dict(op="all", max_order=k, events=data))
+                if len(broken_seen) < 8:   # the first place to look for a failing input of the property itself
+                    broken_seen.append(1)
+                    r = check_all_kinds(data, k)
+                    if r:
+                        ctx.violation(r[0], r[1], dict(input=dict(events=data, max_order=k), detail=r[2],
+                                                       how_to_replay="./check C13 --replay <this file>"))
 
 
 # ------------------------------------------------------------------ search on the real code
